@@ -13,7 +13,7 @@ def project(log, sc, tid):
         if k == "run_begin":
             ev.append({"ev": "run_begin", "t": t, "run": e["run"], "interval": e["interval"], "timeout": e["timeout"],
                        "timeoutGiven": runkw.get("ping_timeout") is not None, "reconnect": e["reconnect"], "cbs": e["cbs"],
-                       "dispatcher": e["dispatcher"], "payload": payload})
+                       "dispatcher": e["dispatcher"], "payload": payload, "jitter": int(sc.get("send_delay_ms") or 0)})
         elif k == "dial":
             ev.append({"ev": "dial", "t": t, "cid": e["cid"], "outcome": e["outcome"]})
         elif k == "srv":
